@@ -52,10 +52,11 @@ def replay_enabled(case):
             argv += ["--config", cf]
         if v["st_present"]:
             argv += ["-s", f"plugins.{name}.enabled=$!" + ("True" if v["st_value"] else "False")]
+        cli_name = ("md998, " + name) if v.get("cli_list") else name
         if v["cli_e"]:
-            argv += ["-e", name]
+            argv += ["-e", cli_name]
         if v["cli_d"]:
-            argv += ["-d", name]
+            argv += ["-d", cli_name]
         code, out, err = _run(argv + ["plugins", "list"], d)
     finally:
         shutil.rmtree(d, ignore_errors=True)
